@@ -36,6 +36,16 @@ def check(ctx):
     # what seq's completeness test relies on: a call that ends without a result marks the subgraph incomplete
     ctx.clause("R-TABLE a call that ends without a result marks the subgraph incomplete (the condition Seq tests before its second child)")
     common.pending_call_blocks_sequence(ctx, F)
+    # a host result is applied only to this peer's own pending request: the lookup in call_results is guarded by
+    # (sender stored in the met state == current peer).  Call ids are per-peer counters, so without the guard a result
+    # is bound to another peer's call and later calls go out with arguments the script never computes there.
+    ctx.clause("R-GUARD a host result is looked up only for a met state whose stored sender is the current peer")
+    h_ = F.fn("prev_result_handler::handle_prev_state")
+    hp_ = Prov(h_)
+    rm_ = h_.calls_to("HashMap::remove")
+    g_ = common.eq_guard(h_, hp_, rm_[0].bb, lambda e: lib.mentions_field(e, "peer_id") and lib.mentions_param(e, "met_result"), common.is_current_peer) if len(rm_) == 1 else None
+    ctx.require(g_ is not None, "R-GUARD", "results:own-request-only", "call_results consulted only where %s" % g_,
+                "handle_prev_state consults call_results without the guard (sender of the met RequestSentBy == current peer): a result of this peer can be applied to a call pending at another peer")
 
     # Seq
     s = exe(F, "::Seq<'i>")
